@@ -387,6 +387,9 @@ func runC04(c *ctxT) {
 	for i := 0; i < c.scale(8, 60); i++ {
 		c04Case(c, c.rng.Fork(), newWlWorld, true)
 	}
+	for i := 0; i < c.scale(3, 12); i++ {
+		quicChainAdversary(c, i)
+	}
 	for i := 0; i < n; i++ {
 		r := c.rng.Fork()
 		switch i % 3 {
